@@ -878,6 +878,14 @@ func checkC06ExecuteReset(c *Ctx, r *Rule) {
 							}
 						}
 					}
+					// ... or func() { delete(X.Clauses, K) }()
+					if ce, ok := x.(*ast.CallExpr); ok {
+						if id, ok := ce.Fun.(*ast.Ident); ok && id.Name == "delete" && len(ce.Args) == 2 && fieldSel(info, ce.Args[0], clausesF) {
+							if k, ok := constString(info, ce.Args[1]); ok {
+								out = append(out, "restore:"+k)
+							}
+						}
+					}
 					return true
 				})
 			}
